@@ -419,10 +419,10 @@ func init() {
 			} else {
 				rcT := []int{0, 1, 2, 3, 4, 5, 7, 10}
 				run("root-grid n<=30 rows/cols in {unset,1,2,3,4,5,7,10} full gap cube", seq(0, 30), pure, rcT, []string{"root"}, nil)
-				run("container-cell n<=6 (dagre, full gap cube)", seq(1, 6), dagre, rcVals, []string{"root"}, nil)
-				run("container-cell n=7..12 (dagre, gap slice 4)", seq(7, 12), dagre, rcVals, []string{"root"}, slice4)
-				run("nested-grid n<=6 (dagre at root, full gap cube)", seq(0, 6), pure, rcVals, []string{"box"}, nil)
-				run("nested-grid n=7..16 (dagre at root, gap slice 4)", seq(7, 16), pure, rcVals, []string{"box"}, slice4)
+				run("container-cell n<=3 (dagre, full gap cube)", seq(1, 3), dagre, rcVals, []string{"root"}, nil)
+				run("container-cell n=4..12 (dagre, gap slice 4)", seq(4, 12), dagre, rcVals, []string{"root"}, slice4)
+				run("nested-grid n<=2 (dagre at root, full gap cube)", seq(0, 2), pure, rcVals, []string{"box"}, nil)
+				run("nested-grid n=3..16 (dagre at root, gap slice 4)", seq(3, 16), pure, rcVals, []string{"box"}, slice4)
 			}
 			w.Count("dagre_calls", int64(dagreCalls))
 		},
